@@ -331,6 +331,10 @@ func VerifC01Thorough() { walks(2, "0", 2) }
 func VerifC01Deep()     { walks(3, "0", 0) }
 func VerifC01AnyStart() { walksFrom(2, "0", 0, true) }
 
+// VerifC01Select: as VerifC01AnyStart, the outputs SelectUtxos hands out for each address's whole
+// balance (served from the node's output cache first) being one more observable.
+func VerifC01Select() { vkit.ObserveSelect, skipProbe = true, true; walksFrom(2, "0", 0, true) }
+
 // VerifC17AnyStart: window 2 on the deep world, the node starts at any block, then 2 operations
 func VerifC17AnyStart() { deepWorld, skipProbe = true, true; walksFrom(2, "2", 0, true) }
 func VerifC17Walks()    { walks(3, "1", 0) }
